@@ -12,6 +12,19 @@ func drawWithinLimits(r *core.Rng, slotty, boundary bool) (*exifCase, bool) {
 	for try := 0; try < 8; try++ {
 		ec := drawExifCase(r, slotty, boundary && try < 4)
 		b := ec.build(false, true)
+		if ec.class == "many-pending" && r.Bool() {
+			// exactly at the documented capacity: unknown out-of-line entries are added to the Exif
+			// directory until the pending-table model reads 84 (one more would be one too many)
+			for k := 0; k < 90 && b.MaxPending < 84; k++ {
+				ec.rec.Exif.Add(uint16(0x7000+k), gen.ASCII("filler-value-"+fmt.Sprint(k)))
+				ec.rec.Exif.Sort()
+				b = ec.build(false, true)
+			}
+			if b.MaxPending == 84 {
+				ec.class = "exactly-84-pending"
+				ec.desc += " topped-up-to-84"
+			}
+		}
 		if withinLimits(b) {
 			return ec, true
 		}
